@@ -1075,19 +1075,81 @@ a single connector) -/
 def SingleGc (G : String) (w : SWorld α B) : Prop :=
   (∀ g ∈ w.gcs, g.id = G) ∧ (∀ s ∈ w.stations, s.parent = G)
 
-/-- the station invariant of the collective passes -/
-def SInv (G : String) (w : SWorld α B) : Prop := Link w ∧ StationOK w ∧ SingleGc G w ∧ NoV2G w
+/-- "no V2G vehicle" as an optional part of an invariant -/
+def VInv (b : Bool) (w : SWorld α B) : Prop := b = true → NoV2G w
 
-theorem sinv_commit (G : String) (w : SWorld α B) (cmds : List (String × α)) (v : VehicleS α B)
-    (bat' : B) (cs : StationS α) (gc : GcS α) (avg : α) (hS : SInv G w) (hv : v ∈ w.vehicles)
+theorem vinv_commit (b : Bool) (w : SWorld α B) (cmds : List (String × α)) (v : VehicleS α B)
+    (bat' : B) (cs : StationS α) (gc : GcS α) (csId : String) (avg : α) (hv : v ∈ w.vehicles)
+    (h : VInv b w) : VInv b (commit w cmds v bat' cs gc csId avg).1 :=
+  fun hb => noV2G_commit w cmds v bat' cs gc csId avg hv (h hb)
+
+theorem vehicle?_self_of_nodup (vs : List (VehicleS α B)) (hnd : (vs.map (·.id)).Nodup)
+    (v : VehicleS α B) (hv : v ∈ vs) : vs.find? (·.id == v.id) = some v := by
+  induction vs with
+  | nil => simp at hv
+  | cons x xs ih =>
+    simp only [List.map_cons, List.nodup_cons, List.mem_map, not_exists, not_and] at hnd
+    simp only [List.find?_cons]
+    rcases List.mem_cons.mp hv with rfl | hv'
+    · simp
+    · have : (x.id == v.id) = false := by
+        simp only [beq_eq_false_iff_ne, ne_eq]
+        exact fun e => hnd.1 v hv' e.symm
+      simp only [this]
+      exact ih hnd.2 hv'
+
+/-- what no pass ever changes of a vehicle: its id and its station -/
+def strip2 (v : VehicleS α B) : String × Option String := (v.id, v.cs)
+
+theorem strip2_setVehicle (w : SWorld α B) (v : VehicleS α B) (bat' : B)
+    (hnd : (w.vehicles.map (·.id)).Nodup) (hv : v ∈ w.vehicles) :
+    (w.setVehicle { v with bat := bat' }).vehicles.map strip2 = w.vehicles.map strip2 := by
+  unfold SWorld.setVehicle
+  simp only [List.map_map]
+  apply List.map_congr_left
+  intro x hx
+  simp only [Function.comp]
+  by_cases hid : (x.id == v.id) = true
+  · have hidv : x.id = v.id := by simpa using hid
+    have h1 := vehicle?_self_of_nodup w.vehicles hnd x hx
+    have h2 := vehicle?_self_of_nodup w.vehicles hnd v hv
+    rw [hidv, h2] at h1
+    have hxv : x = v := (Option.some.inj h1).symm
+    subst hxv
+    simp [strip2]
+  · simp only [hid, Bool.false_eq_true, if_false]
+
+/-- the vehicles still are the list `M` of (id, station) pairs — claimed only when the ids are distinct -/
+def VMeta (M : List (String × Option String)) (w : SWorld α B) : Prop :=
+  (M.map (·.1)).Nodup → w.vehicles.map strip2 = M
+
+theorem vmeta_commit (M : List (String × Option String)) (w : SWorld α B) (cmds : List (String × α))
+    (v : VehicleS α B) (bat' : B) (cs : StationS α) (gc : GcS α) (csId : String) (avg : α)
+    (hv : v ∈ w.vehicles) (h : VMeta M w) : VMeta M (commit w cmds v bat' cs gc csId avg).1 := by
+  intro hnd
+  have he := h hnd
+  have hids : (w.vehicles.map (·.id)).Nodup := by
+    have : w.vehicles.map (·.id) = M.map (·.1) := by
+      rw [← he, List.map_map]; rfl
+    rw [this]; exact hnd
+  show (w.setVehicle { v with bat := bat' }).vehicles.map strip2 = M
+  rw [strip2_setVehicle w v bat' hids hv, he]
+
+/-- the station invariant of the collective passes -/
+def SInv (bv : Bool) (M : List (String × Option String)) (G : String) (w : SWorld α B) : Prop :=
+  Link w ∧ StationOK w ∧ SingleGc G w ∧ VInv bv w ∧ VMeta M w
+
+theorem sinv_commit (bv : Bool) (M : List (String × Option String)) (G : String) (w : SWorld α B) (cmds : List (String × α)) (v : VehicleS α B)
+    (bat' : B) (cs : StationS α) (gc : GcS α) (avg : α) (hS : SInv bv M G w) (hv : v ∈ w.vehicles)
     (hcs : cs ∈ w.stations) (hg : gc ∈ w.gcs) (h0 : 0 ≤ avg)
     (h1 : cs.currentPower + avg ≤ cs.maxPower) :
-    SInv G (commit w cmds v bat' cs gc cs.id avg).1 := by
-  obtain ⟨hl, hok, ⟨hsg, hss⟩, hn⟩ := hS
+    SInv bv M G (commit w cmds v bat' cs gc cs.id avg).1 := by
+  obtain ⟨hl, hok, ⟨hsg, hss⟩, hn, hvm⟩ := hS
   have hp : gc.id = cs.parent := by rw [hsg gc hg, hss cs hcs]
   obtain ⟨hl', hval⟩ := link_commit w cmds v bat' cs gc hcs hg hp avg hl
   refine ⟨hl', stationOK_commit w cmds v bat' cs gc avg hok hval hcs h0 h1, ⟨?_, ?_⟩,
-    noV2G_commit w cmds v bat' cs gc cs.id avg hv hn⟩
+    vinv_commit bv w cmds v bat' cs gc cs.id avg hv hn,
+    vmeta_commit M w cmds v bat' cs gc cs.id avg hv hvm⟩
   · intro g hgm
     rw [commit_gcs] at hgm
     rcases mem_setGc _ _ g hgm with rfl | ⟨hm, _⟩
@@ -1110,9 +1172,9 @@ theorem clampV_station (cs : StationS α) (v : VehicleS α B) (p avg : α)
   unfold clampV at h1
   linarith
 
-theorem cvVehicle_sinv (ops : Ops α B) (law : Law ops) (env : Env α) (G gid : String)
-    (st st' : SWorld α B × List (String × α)) (kid : α × String) (hS : SInv G st.1)
-    (h : cvVehicle ops env gid st kid = .ok st') : SInv G st'.1 := by
+theorem cvVehicle_sinv (bv : Bool) (M : List (String × Option String)) (ops : Ops α B) (law : Law ops) (env : Env α) (G gid : String)
+    (st st' : SWorld α B × List (String × α)) (kid : α × String) (hS : SInv bv M G st.1)
+    (h : cvVehicle ops env gid st kid = .ok st') : SInv bv M G st'.1 := by
   unfold cvVehicle at h
   split at h
   · cases h
@@ -1133,12 +1195,12 @@ theorem cvVehicle_sinv (ops : Ops α B) (law : Law ops) (env : Env α) (G gid : 
             obtain ⟨b', avg, sd⟩ := r
             obtain ⟨h0, h1⟩ := law.load_max _ _ _ _ _ _ _ hr
             subst hcsid
-            exact sinv_commit G st.1 st.2 v b' cs gc avg hS (getVehicle_ok _ _ _ hv) hcsm
+            exact sinv_commit bv M G st.1 st.2 v b' cs gc avg hS (getVehicle_ok _ _ _ hv) hcsm
               (getGc_ok _ _ _ hgc).1 h0 (clampV_station cs v _ avg (hS.2.1 cs hcsm).2 h1)
 
-theorem cvGroup_sinv (ops : Ops α B) (law : Law ops) (env : Env α) (G : String)
-    (st st' : SWorld α B × List (String × α)) (grp : String × List String) (hS : SInv G st.1)
-    (h : cvGroup ops env st grp = .ok st') : SInv G st'.1 := by
+theorem cvGroup_sinv (bv : Bool) (M : List (String × Option String)) (ops : Ops α B) (law : Law ops) (env : Env α) (G : String)
+    (st st' : SWorld α B × List (String × α)) (grp : String × List String) (hS : SInv bv M G st.1)
+    (h : cvGroup ops env st grp = .ok st') : SInv bv M G st'.1 := by
   unfold cvGroup at h
   split at h
   · cases h
@@ -1150,21 +1212,21 @@ theorem cvGroup_sinv (ops : Ops α B) (law : Law ops) (env : Env α) (G : String
         · cases h
         · split at h
           · simp only [Except.ok.injEq] at h; subst h; exact hS
-          · exact foldlM_within (cvVehicle ops env grp.1) (fun s => SInv G s.1)
-              (fun s s' b hs hb => cvVehicle_sinv ops law env G grp.1 s s' b hs hb) _ st st' hS h
+          · exact foldlM_within (cvVehicle ops env grp.1) (fun s => SInv bv M G s.1)
+              (fun s s' b hs hb => cvVehicle_sinv bv M ops law env G grp.1 s s' b hs hb) _ st st' hS h
 
-theorem chargeVehicles_sinv (ops : Ops α B) (law : Law ops) (env : Env α) (G : String)
-    (w w' : SWorld α B) (cmds : List (String × α)) (hS : SInv G w)
-    (h : chargeVehicles ops env w = .ok (w', cmds)) : SInv G w' := by
+theorem chargeVehicles_sinv (bv : Bool) (M : List (String × Option String)) (ops : Ops α B) (law : Law ops) (env : Env α) (G : String)
+    (w w' : SWorld α B) (cmds : List (String × α)) (hS : SInv bv M G w)
+    (h : chargeVehicles ops env w = .ok (w', cmds)) : SInv bv M G w' := by
   unfold chargeVehicles at h
   split at h
   · cases h
-  · exact foldlM_within (cvGroup ops env) (fun s => SInv G s.1)
-      (fun s s' b hs hb => cvGroup_sinv ops law env G s s' b hs hb) _ (w, []) (w', cmds) hS h
+  · exact foldlM_within (cvGroup ops env) (fun s => SInv bv M G s.1)
+      (fun s s' b hs hb => cvGroup_sinv bv M ops law env G s s' b hs hb) _ (w, []) (w', cmds) hS h
 
-theorem acVehicle_sinv (ops : Ops α B) (law : Law ops) (env : Env α) (G gid : String)
-    (s s' : SWorld α B × List (String × α)) (v0 : VehicleS α B) (hS : SInv G s.1)
-    (h : acVehicle ops env gid s v0 = .ok s') : SInv G s'.1 := by
+theorem acVehicle_sinv (bv : Bool) (M : List (String × Option String)) (ops : Ops α B) (law : Law ops) (env : Env α) (G gid : String)
+    (s s' : SWorld α B × List (String × α)) (v0 : VehicleS α B) (hS : SInv bv M G s.1)
+    (h : acVehicle ops env gid s v0 = .ok s') : SInv bv M G s'.1 := by
   unfold acVehicle at h
   split at h
   · simp only [Except.ok.injEq] at h; subst h; exact hS
@@ -1194,12 +1256,12 @@ theorem acVehicle_sinv (ops : Ops α B) (law : Law ops) (env : Env α) (G gid : 
                   obtain ⟨b', avg, sd⟩ := r
                   obtain ⟨h0, h1⟩ := law.load_max _ _ _ _ _ _ _ hr
                   subst hcsid
-                  exact sinv_commit G s.1 s.2 v b' cs gc avg hS hvm hcsm (getGc_ok _ _ _ hgc).1 h0
+                  exact sinv_commit bv M G s.1 s.2 v b' cs gc avg hS hvm hcsm (getGc_ok _ _ _ hgc).1 h0
                     (clampV_station cs v _ avg (hS.2.1 cs hcsm).2 h1)
 
-theorem afterCst_sinv (ops : Ops α B) (law : Law ops) (env : Env α) (G : String)
-    (w w' : SWorld α B) (st st' : CState α) (cmds cmds' : List (String × α)) (hS : SInv G w)
-    (h : afterCst ops env w st cmds = .ok (w', st', cmds')) : SInv G w' := by
+theorem afterCst_sinv (bv : Bool) (M : List (String × Option String)) (ops : Ops α B) (law : Law ops) (env : Env α) (G : String)
+    (w w' : SWorld α B) (st st' : CState α) (cmds cmds' : List (String × α)) (hS : SInv bv M G w)
+    (h : afterCst ops env w st cmds = .ok (w', st', cmds')) : SInv bv M G w' := by
   unfold afterCst at h
   split at h
   · cases h
@@ -1215,14 +1277,14 @@ theorem afterCst_sinv (ops : Ops α B) (law : Law ops) (env : Env α) (G : Strin
           · rename_i r hr
             simp only [Except.ok.injEq, Prod.mk.injEq] at h
             obtain ⟨rfl, _⟩ := h
-            exact foldlM_within (acVehicle ops env _) (fun s => SInv G s.1)
-              (fun s s' b hs hb => acVehicle_sinv ops law env G _ s s' b hs hb) _ (w, cmds) r hS hr
+            exact foldlM_within (acVehicle ops env _) (fun s => SInv bv M G s.1)
+              (fun s s' b hs hb => acVehicle_sinv bv M ops law env G _ s s' b hs hb) _ (w, cmds) r hS hr
 
-theorem csLoop_sinv (ops : Ops α B) (law : Law ops) (env : Env α) (G : String) (fraction : α)
+theorem csLoop_sinv (bv : Bool) (M : List (String × Option String)) (ops : Ops α B) (law : Law ops) (env : Env α) (G : String) (fraction : α)
     (nVeh : Nat) (gid : String) (fuel i : Nat) (q lo : List (String × α)) (extra rem : α)
     (w : SWorld α B) (cmds : List (String × α)) (r : SWorld α B × List (String × α))
-    (hS : SInv G w)
-    (h : csLoop ops env fraction nVeh gid fuel i q lo extra rem w cmds = .ok r) : SInv G r.1 := by
+    (hS : SInv bv M G w)
+    (h : csLoop ops env fraction nVeh gid fuel i q lo extra rem w cmds = .ok r) : SInv bv M G r.1 := by
   induction fuel generalizing i q lo extra rem w cmds with
   | zero =>
     cases q with
@@ -1253,7 +1315,7 @@ theorem csLoop_sinv (ops : Ops α B) (law : Law ops) (env : Env α) (G : String)
                 obtain ⟨b', avg, sd⟩ := res
                 obtain ⟨h0, h1⟩ := law.load_target _ _ _ _ _ _ hres
                 subst hcsid
-                have hS' := sinv_commit G w cmds v b' cs gc avg hS (getVehicle_ok _ _ _ hv) hcsm
+                have hS' := sinv_commit bv M G w cmds v b' cs gc avg hS (getVehicle_ok _ _ _ hv) hcsm
                   (getGc_ok _ _ _ hgc).1 h0 (clampV_station cs v _ avg (hS.2.1 cs hcsm).2 h1)
                 simp only at h
                 split at h
@@ -1289,10 +1351,10 @@ theorem simBalanced_station (ops : Ops α B) (env : Env α) (heps : 0 ≤ env.ep
   unfold clampV at this
   linarith
 
-theorem excessVehicle_sinv (ops : Ops α B) (law : Law ops) (env : Env α) (heps : 0 ≤ env.eps)
+theorem excessVehicle_sinv (bv : Bool) (M : List (String × Option String)) (ops : Ops α B) (law : Law ops) (env : Env α) (heps : 0 ≤ env.eps)
     (G : String) (dt : Int) (st st' : SWorld α B × List (String × α) × List (String × α))
-    (kv : String × α) (hS : SInv G st.1) (h : excessVehicle ops env dt st kv = .ok st') :
-    SInv G st'.1 := by
+    (kv : String × α) (hS : SInv bv M G st.1) (h : excessVehicle ops env dt st kv = .ok st') :
+    SInv bv M G st'.1 := by
   unfold excessVehicle at h
   simp only [bind, Except.bind] at h
   split at h
@@ -1322,12 +1384,12 @@ theorem excessVehicle_sinv (ops : Ops α B) (law : Law ops) (env : Env α) (heps
                 subst hcsid
                 have hst := simBalanced_station ops env heps cs v x dt _ (some kv.2) power
                   (hS.2.1 cs hcsm).2 hpow
-                exact sinv_commit G st.1 st.2.2 v b' cs gc avg hS (getVehicle_ok _ _ _ hv) hcsm
+                exact sinv_commit bv M G st.1 st.2.2 v b' cs gc avg hS (getVehicle_ok _ _ _ hv) hcsm
                   (getGc_ok _ _ _ hgc).1 h0 (by linarith)
 
-theorem duringCst_sinv (ops : Ops α B) (law : Law ops) (env : Env α) (heps : 0 ≤ env.eps)
+theorem duringCst_sinv (bv : Bool) (M : List (String × Option String)) (ops : Ops α B) (law : Law ops) (env : Env α) (heps : 0 ≤ env.eps)
     (G : String) (w : SWorld α B) (st : CState α) (r : SWorld α B × CState α × List (String × α))
-    (hS : SInv G w) (h : duringCst ops env w st = .ok r) : SInv G r.1 := by
+    (hS : SInv bv M G w) (h : duringCst ops env w st = .ok r) : SInv bv M G r.1 := by
   unfold duringCst at h
   split at h
   · cases h
@@ -1347,8 +1409,8 @@ theorem duringCst_sinv (ops : Ops α B) (law : Law ops) (env : Env α) (heps : 0
           · cases hr1
           · rename_i r2 hr2
             simp only [Except.ok.injEq] at hr1; subst hr1
-            exact foldlM_within (excessVehicle ops env _) (fun s => SInv G s.1)
-              (fun s s' b hs hb => excessVehicle_sinv ops law env heps G _ s s' b hs hb) _ _ r2 hS hr2
+            exact foldlM_within (excessVehicle ops env _) (fun s => SInv bv M G s.1)
+              (fun s s' b hs hb => excessVehicle_sinv bv M ops law env heps G _ s s' b hs hb) _ _ r2 hS hr2
         · -- on-schedule branch
           unfold dcOnSchedule at hr1
           simp only at hr1
@@ -1364,20 +1426,20 @@ theorem duringCst_sinv (ops : Ops α B) (law : Law ops) (env : Env α) (heps : 0
                   · cases hr1
                   · rename_i r2 hr2
                     simp only [Except.ok.injEq] at hr1; subst hr1
-                    exact csLoop_sinv ops law env G _ _ _ _ _ _ _ _ _ w [] r2 hS hr2
+                    exact csLoop_sinv bv M ops law env G _ _ _ _ _ _ _ _ _ w [] r2 hS hr2
 
 /-- **collective sub-strategy without V2G-capable vehicles: the whole step keeps every station within
 `[0, max_power]`** (inside and outside the core standing time, both branches) -/
-theorem step_collective_station (ops : Ops α B) (law : Law ops) (env : Env α) (heps : 0 ≤ env.eps)
+theorem step_collective_station (M : List (String × Option String)) (ops : Ops α B) (law : Law ops) (env : Env α) (heps : 0 ≤ env.eps)
     (hc : env.collective = true) (G : String) (w w' : SWorld α B) (st st' : CState α)
-    (cmds : List (String × α)) (hS : SInv G (resetStations w))
+    (cmds : List (String × α)) (hS : SInv true M G (resetStations w))
     (h : step ops env w st = .ok (w', st', cmds)) : StationOK w' := by
   unfold step at h
   simp only [hc, if_true, bind, Except.bind, pure, Except.pure] at h
   split at h
   · cases h
   · rename_i r hr
-    have hSr : SInv G r.1 := by
+    have hSr : SInv true M G r.1 := by
       split at hr
       · cases hr
       · rename_i b hb
@@ -1390,18 +1452,18 @@ theorem step_collective_station (ops : Ops α B) (law : Law ops) (env : Env α) 
             split at hr
             · cases hr
             · rename_i r2 hr2
-              have k := duringCst_sinv ops law env heps G _ st1 r2 hS hr2
-              simp only [noV2G_any r2.1 k.2.2.2, Bool.false_eq_true, if_false, Except.ok.injEq] at hr
+              have k := duringCst_sinv true M ops law env heps G _ st1 r2 hS hr2
+              simp only [noV2G_any r2.1 (k.2.2.2.1 rfl), Bool.false_eq_true, if_false, Except.ok.injEq] at hr
               subst hr; exact k
         | false =>
           simp only [Bool.false_eq_true, if_false] at hr
           split at hr
           · cases hr
           · rename_i r1 hr1
-            have k := chargeVehicles_sinv ops law env G _ r1.1 r1.2 hS (by rw [hr1])
+            have k := chargeVehicles_sinv true M ops law env G _ r1.1 r1.2 hS (by rw [hr1])
             split at hr
             · obtain ⟨a, b, c⟩ := r
-              exact afterCst_sinv ops law env G r1.1 a st b r1.2 c k hr
+              exact afterCst_sinv true M ops law env G r1.1 a st b r1.2 c k hr
             · simp only [Except.ok.injEq] at hr; subst hr; exact k
     split at h
     · cases h
@@ -1453,21 +1515,6 @@ theorem sbLoop_no_fuel (ops : Ops α B) (env : Env α) (heps : 0 < env.eps) (bat
     · left; simp
 
 /-! ### energy bookkeeping of the whole vehicle pass (individual sub-strategy) -/
-
-theorem vehicle?_self_of_nodup (vs : List (VehicleS α B)) (hnd : (vs.map (·.id)).Nodup)
-    (v : VehicleS α B) (hv : v ∈ vs) : vs.find? (·.id == v.id) = some v := by
-  induction vs with
-  | nil => simp at hv
-  | cons x xs ih =>
-    simp only [List.map_cons, List.nodup_cons, List.mem_map, not_exists, not_and] at hnd
-    simp only [List.find?_cons]
-    rcases List.mem_cons.mp hv with rfl | hv'
-    · simp
-    · have : (x.id == v.id) = false := by
-        simp only [beq_eq_false_iff_ne, ne_eq]
-        exact fun e => hnd.1 v hv' e.symm
-      simp only [this]
-      exact ih hnd.2 hv'
 
 theorem vehicle?_setVehicle_ne (w : SWorld α B) (x : VehicleS α B) (id : String) (h : id ≠ x.id) :
     (w.setVehicle x).vehicle? id = w.vehicle? id := by
@@ -1834,8 +1881,8 @@ theorem v2gPowerLoop_le (ops : Ops α B) (env : Env α) (heps : 0 ≤ env.eps) (
     · simp only [Except.ok.injEq] at h; rw [← h]; exact ht
 
 theorem v2gTotal_le (ops : Ops α B) (env : Env α) (heps : 0 ≤ env.eps) (chargeWindow : List Bool)
-    (cs : StationS α) (v : VehicleS α B) (mdp diff : α) (wc : Nat) (dl : Option α) (total : α)
-    (h : v2gTotal ops env true chargeWindow cs v mdp diff wc dl = .ok total) : total ≤ max diff 0 := by
+    (cs : StationS α) (v : VehicleS α B) (mdp diff hn : α) (wc : Nat) (dl : Option α) (total : α)
+    (h : v2gTotal ops env true chargeWindow cs v mdp diff hn wc dl = .ok total) : total ≤ max diff 0 := by
   unfold v2gTotal at h
   simp only [if_true] at h
   refine v2gPowerLoop_le ops env heps cs v true mdp _ dl _ v.bat (max diff 0) env.fuel 0 _ 0 v.bat total
@@ -1966,14 +2013,6 @@ theorem utilizeBatteries_upper (ops : Ops α B) (law : Law ops) (env : Env α) (
 The excess branch searches below the connector headroom (SCH2); the on-schedule branch starts from
 `min(target − load + battery support, cur_max_power − load)` and a V2G charge window is bounded by
 `min(target, cur_max_power) − load` (SCH3). -/
-
-/-- "no V2G vehicle" as an optional part of an invariant -/
-def VInv (b : Bool) (w : SWorld α B) : Prop := b = true → NoV2G w
-
-theorem vinv_commit (b : Bool) (w : SWorld α B) (cmds : List (String × α)) (v : VehicleS α B)
-    (bat' : B) (cs : StationS α) (gc : GcS α) (csId : String) (avg : α) (hv : v ∈ w.vehicles)
-    (h : VInv b w) : VInv b (commit w cmds v bat' cs gc csId avg).1 :=
-  fun hb => noV2G_commit w cmds v bat' cs gc csId avg hv (h hb)
 
 theorem excessVehicle_within (ops : Ops α B) (law : Law ops) (env : Env α) (heps : 0 ≤ env.eps)
     (b : Bool) (dt : Int) (st st' : SWorld α B × List (String × α) × List (String × α))
@@ -2142,7 +2181,7 @@ theorem v2gVehicle_upper (ops : Ops α B) (law : Law ops) (env : Env α) (heps :
                       intro hcn
                       subst hcn
                       simp only [if_true] at htot
-                      exact v2gTotal_le ops env heps chargeWindow cs v _ _ _ dl total htot
+                      exact v2gTotal_le ops env heps chargeWindow cs v _ _ _ _ dl total htot
 
 theorem v2gCst_upper (ops : Ops α B) (law : Law ops) (env : Env α) (heps : 0 ≤ env.eps)
     (w : SWorld α B) (st : CState α) (cmds : List (String × α))
@@ -2201,6 +2240,888 @@ theorem step_collective_core (ops : Ops α B) (law : Law ops) (env : Env α)
       obtain ⟨rfl, _, _⟩ := h
       exact ⟨utilizeBatteries_upper ops law env heps r.1 w2 hur.1 hw2,
         fun hb => utilizeBatteries_within ops law env heps r.1 w2 (hur.2 hb) hw2⟩
+
+/-! ### the feed-in side of the V2G pass (repair SCH4) -/
+
+theorem v2gTotal_le_discharge (ops : Ops α B) (env : Env α) (heps : 0 ≤ env.eps)
+    (chargeWindow : List Bool) (cs : StationS α) (v : VehicleS α B) (mdp diff hn : α) (wc : Nat)
+    (dl : Option α) (total : α)
+    (h : v2gTotal ops env false chargeWindow cs v mdp diff hn wc dl = .ok total) : total ≤ max hn 0 := by
+  unfold v2gTotal at h
+  simp only [Bool.false_eq_true, if_false] at h
+  split at h
+  · cases h
+  · refine v2gPowerLoop_le ops env heps cs v false mdp _ dl _ v.bat (max hn 0) env.fuel 0 _ 0 v.bat total
+      (le_max_right _ _) ?_ h
+    rw [pymin_eq, pymax_eq, pymin_eq]
+    refine le_trans (min_le_right _ _) (max_le (le_max_right _ _) (le_trans (min_le_right _ _) (le_max_left _ _)))
+
+/-- "apply power" of the V2G pass keeps the connector within `± cur_max_power` when the charge power
+is at most the positive headroom and the discharge power at most the feed-in headroom -/
+theorem v2gApply_within (ops : Ops α B) (law : Law ops) (env : Env α) (chargeNow : Bool)
+    (w : SWorld α B) (cmds : List (String × α)) (v : VehicleS α B) (cs : StationS α) (gc : GcS α)
+    (hg : gc ∈ w.gcs) (csId : String) (mdp : α) (dl : Option α) (total : α)
+    (r : SWorld α B × List (String × α)) (hw : Within w)
+    (htc : chargeNow = true → total ≤ max (gc.curMax - gc.currentLoad) 0)
+    (htd : chargeNow = false → total ≤ max (gc.curMax + gc.currentLoad) 0)
+    (h : v2gApply ops env chargeNow w cmds v cs gc csId mdp dl total = .ok r) : Within r.1 := by
+  obtain ⟨hl, hu⟩ := hw gc hg
+  unfold v2gApply at h
+  split at h
+  · rename_i hcn
+    split at h
+    · cases h
+    · rename_i res hres
+      simp only [Except.ok.injEq] at h; subst h
+      have hb : 0 ≤ res.2 ∧ res.2 ≤ max (gc.curMax - gc.currentLoad) 0 := by
+        split at hres
+        · simp only [Except.ok.injEq] at hres; subst hres
+          exact ⟨le_refl _, le_max_right _ _⟩
+        · split at hres
+          · cases hres
+          · rename_i r2 hr2
+            simp only [Except.ok.injEq] at hres; subst hres
+            obtain ⟨b', avg, sd⟩ := r2
+            obtain ⟨h0, h1⟩ := law.load_max _ _ _ _ _ _ _ hr2
+            exact ⟨h0, le_trans h1 (max_le (le_trans (clampV_le cs v total).2
+              (max_le (htc hcn) (le_max_right _ _))) (le_max_right _ _))⟩
+      intro g hgm
+      refine within_setGc_addLoad w gc hg csId res.2 hw (by linarith [hb.1]) ?_ g hgm
+      rcases le_total (gc.curMax - gc.currentLoad) 0 with hc | hc
+      · have := hb.2; rw [max_eq_right hc] at this; linarith
+      · have := hb.2; rw [max_eq_left hc] at this; linarith
+  · rename_i hcn
+    have hcn' : chargeNow = false := by simpa using hcn
+    split at h
+    · cases h
+    · rename_i res hres
+      simp only [Except.ok.injEq] at h; subst h
+      have hb : 0 ≤ res.2 ∧ res.2 ≤ max (gc.curMax + gc.currentLoad) 0 := by
+        split at hres
+        · simp only [Except.ok.injEq] at hres; subst hres
+          exact ⟨le_refl _, le_max_right _ _⟩
+        · split at hres
+          · cases hres
+          · rename_i r2 hr2
+            simp only [Except.ok.injEq] at hres; subst hres
+            obtain ⟨b', avg, sd⟩ := r2
+            obtain ⟨h0, h1⟩ := law.unload_max _ _ _ _ _ _ _ hr2
+            refine ⟨h0, le_trans h1 (max_le ?_ (le_max_right _ _))⟩
+            rw [pymin_eq]
+            exact le_trans (min_le_left _ _) (le_trans (clampV_le cs v total).2
+              (max_le (htd hcn') (le_max_right _ _)))
+      intro g hgm
+      refine within_setGc_addLoad w gc hg csId (-res.2) hw ?_ (by linarith [hb.1]) g hgm
+      rcases le_total (gc.curMax + gc.currentLoad) 0 with hc | hc
+      · have := hb.2; rw [max_eq_right hc] at this; linarith
+      · have := hb.2; rw [max_eq_left hc] at this; linarith
+
+theorem v2gVehicle_within (ops : Ops α B) (law : Law ops) (env : Env α) (heps : 0 ≤ env.eps)
+    (gid : String) (chargeNow : Bool) (chargeWindow : List Bool) (issues : List String)
+    (st st' : SWorld α B × List (String × α) × Option α) (vid : String) (hw : Within st.1)
+    (h : v2gVehicle ops env gid chargeNow chargeWindow issues st vid = .ok st') : Within st'.1 := by
+  unfold v2gVehicle at h
+  split at h
+  · simp only [Except.ok.injEq] at h; subst h; exact hw
+  · split at h
+    · cases h
+    · rename_i v _
+      split at h
+      · cases h
+      · rename_i csId _
+        split at h
+        · cases h
+        · rename_i cs _
+          split at h
+          · cases h
+          · simp only at h
+            split at h
+            · cases h
+            · rename_i gc hgc
+              obtain ⟨hgm, _⟩ := getGc_ok _ _ _ hgc
+              split at h
+              · cases h
+              · rename_i dl _
+                split at h
+                · cases h
+                · simp only [Except.ok.injEq] at h; subst h; exact hw
+                · rename_i target _
+                  split at h
+                  · cases h
+                  · rename_i total htot
+                    split at h
+                    · cases h
+                    · rename_i r hr
+                      simp only [Except.ok.injEq] at h; subst h
+                      refine v2gApply_within ops law env chargeNow st.1 st.2.1 v cs gc hgm csId _ dl total r
+                        hw ?_ ?_ hr
+                      · intro hcn
+                        subst hcn
+                        simp only [if_true] at htot
+                        have := v2gTotal_le ops env heps chargeWindow cs v _ _ _ _ dl total htot
+                        refine le_trans this (max_le_max ?_ (le_refl _))
+                        rw [pymin_eq]
+                        have : min target gc.curMax ≤ gc.curMax := min_le_right _ _
+                        linarith
+                      · intro hcn
+                        subst hcn
+                        exact v2gTotal_le_discharge ops env heps chargeWindow cs v _ _ _ _ dl total htot
+
+theorem v2gCst_within (ops : Ops α B) (law : Law ops) (env : Env α) (heps : 0 ≤ env.eps)
+    (w : SWorld α B) (st : CState α) (cmds : List (String × α))
+    (r : SWorld α B × CState α × List (String × α)) (hw : Within w)
+    (h : v2gCst ops env w st cmds = .ok r) : Within r.1 := by
+  unfold v2gCst at h
+  simp only [bind, Except.bind] at h
+  split at h
+  · cases h
+  · split at h
+    · cases h
+    · split at h
+      · cases h
+      · rename_i r2 hr2
+        simp only [Except.ok.injEq] at h; subst h
+        exact foldlM_within (v2gVehicle ops env _ _ _ _) (fun s => Within s.1)
+          (fun s s' b hs hb => v2gVehicle_within ops law env heps _ _ _ _ s s' b hs hb)
+          _ (w, cmds, none) r2 hw hr2
+
+/-- collective sub-strategy inside the core standing time (code repaired by SCH2–SCH4), one connector:
+both bounds, V2G-capable vehicles allowed -/
+theorem step_collective_core_full (ops : Ops α B) (law : Law ops) (env : Env α)
+    (heps : 0 ≤ env.eps) (hc : env.collective = true)
+    (hin : dtWithinCoreStandingTime env.now env.cst = .ok true)
+    (w w' : SWorld α B) (st st' : CState α) (cmds : List (String × α)) (g0 : GcS α)
+    (hg : w.gcs = [g0]) (hw : Within w)
+    (h : step ops env w st = .ok (w', st', cmds)) : Within w' := by
+  unfold step at h
+  simp only [hc, if_true, hin, bind, Except.bind, pure, Except.pure] at h
+  have hw0 : Within (resetStations w) := by intro g hgm; exact hw g (by simpa using hgm)
+  have hg0 : (resetStations w).gcs = [g0] := hg
+  split at h
+  · cases h
+  · rename_i r hr
+    have hwr : Within r.1 := by
+      split at hr
+      · cases hr
+      · rename_i st1 _
+        split at hr
+        · cases hr
+        · rename_i r2 hr2
+          obtain ⟨k1, _⟩ := duringCst_within ops law env heps false _ st1 g0 r2 hw0
+            (fun hb => by cases hb) hg0 hr2
+          split at hr
+          · exact v2gCst_within ops law env heps r2.1 r2.2.1 r2.2.2 r k1 hr
+          · simp only [Except.ok.injEq] at hr; subst hr; exact k1
+    split at h
+    · cases h
+    · rename_i w2 hw2
+      simp only [Except.ok.injEq, Prod.mk.injEq] at h
+      obtain ⟨rfl, _, _⟩ := h
+      exact utilizeBatteries_within ops law env heps r.1 w2 hwr hw2
+
+/-! ### energy bookkeeping of the collective sub-strategy: every change is one booked battery call -/
+
+/-- `w'` arises from `w` by ONE real battery call on a connected vehicle `v` whose signed average power
+`x` (negative = V2G discharge, which needs a V2G-capable... see `Booked1.v2g`) is booked under the id of
+its station on a connector: the vehicle's battery is replaced, the connector's load moves by exactly `x`,
+stationary batteries and every other vehicle / connector are untouched, and the stored energy moves by
+`x · hours · efficiency` (charging) resp. `(−x) · hours / efficiency` (discharging) -/
+def Booked1 (ops : Ops α B) (hrs : Int → α) (env : Env α) (w w' : SWorld α B) : Prop :=
+  ∃ v gc csId x bat', v ∈ w.vehicles ∧ v.cs = some csId ∧ gc ∈ w.gcs ∧
+    w'.vehicles = (w.setVehicle { v with bat := bat' }).vehicles ∧
+    w'.gcs = (w.setGc (gc.addLoad csId x).1).gcs ∧
+    (gc.addLoad csId x).1.currentLoad = gc.currentLoad + x ∧
+    w'.batteries = w.batteries ∧
+    ((0 ≤ x ∧ (ops.soc bat' - ops.soc v.bat) * ops.capacity v.bat =
+        x * hrs env.interval * ops.efficiency v.bat) ∨
+     (x ≤ 0 ∧ (ops.soc v.bat - ops.soc bat') * ops.capacity v.bat =
+        (-x) * hrs env.interval / ops.efficiency v.bat))
+
+/-- a finite sequence of booked battery calls -/
+inductive Chain (ops : Ops α B) (hrs : Int → α) (env : Env α) : SWorld α B → SWorld α B → Prop where
+  | refl (w : SWorld α B) : Chain ops hrs env w w
+  | tail {w w1 w2 : SWorld α B} : Chain ops hrs env w w1 → Booked1 ops hrs env w1 w2 →
+      Chain ops hrs env w w2
+
+theorem Chain.trans {ops : Ops α B} {hrs : Int → α} {env : Env α} {a b c : SWorld α B}
+    (h1 : Chain ops hrs env a b) (h2 : Chain ops hrs env b c) : Chain ops hrs env a c := by
+  induction h2 with
+  | refl => exact h1
+  | tail _ hb ih => exact Chain.tail ih hb
+
+theorem Chain.single {ops : Ops α B} {hrs : Int → α} {env : Env α} {a b : SWorld α B}
+    (h : Booked1 ops hrs env a b) : Chain ops hrs env a b := Chain.tail (Chain.refl a) h
+
+/-- a committed `load` call is a booked call -/
+theorem commit_booked (ops : Ops α B) (law : Law ops) (hrs : Int → α) (elaw : EnergyLaw ops hrs)
+    (env : Env α) (w : SWorld α B) (cmds : List (String × α)) (v : VehicleS α B) (cs : StationS α)
+    (gc : GcS α) (csId : String) (mp ts tp : Option α) (r : B × α × α)
+    (hv : v ∈ w.vehicles) (hc : v.cs = some csId) (hg : gc ∈ w.gcs) (h0 : 0 ≤ r.2.1)
+    (hr : ops.load v.bat env.interval mp ts tp = .ok r) :
+    Booked1 ops hrs env w (commit w cmds v r.1 cs gc csId r.2.1).1 := by
+  obtain ⟨b', avg, sd⟩ := r
+  exact ⟨v, gc, csId, avg, b', hv, hc, hg, rfl, rfl, (addLoad_currentLoad gc csId avg).1, rfl,
+    Or.inl ⟨h0, (elaw.load_energy _ _ _ _ _ _ _ _ hr).2.2⟩⟩
+
+theorem foldlM_chain {β σ : Type} (ops : Ops α B) (hrs : Int → α) (env : Env α) (proj : σ → SWorld α B)
+    (f : σ → β → Py σ) (hf : ∀ s s' b, f s b = .ok s' → Chain ops hrs env (proj s) (proj s'))
+    (l : List β) (s s' : σ) (h : l.foldlM f s = .ok s') : Chain ops hrs env (proj s) (proj s') := by
+  induction l generalizing s with
+  | nil =>
+    simp only [List.foldlM_nil, pure, Except.pure, Except.ok.injEq] at h
+    subst h; exact Chain.refl _
+  | cons b rest ih =>
+    simp only [List.foldlM_cons, bind, Except.bind] at h
+    split at h
+    · cases h
+    · rename_i s1 h1
+      exact Chain.trans (hf s s1 b h1) (ih s1 h)
+
+theorem cvVehicle_chain (ops : Ops α B) (law : Law ops) (hrs : Int → α) (elaw : EnergyLaw ops hrs)
+    (env : Env α) (gid : String) (st st' : SWorld α B × List (String × α)) (kid : α × String)
+    (h : cvVehicle ops env gid st kid = .ok st') : Chain ops hrs env st.1 st'.1 := by
+  unfold cvVehicle at h
+  split at h
+  · cases h
+  · rename_i v hv
+    split at h
+    · cases h
+    · rename_i csId hcs
+      split at h
+      · cases h
+      · split at h
+        · cases h
+        · rename_i gc hgc
+          split at h
+          · cases h
+          · rename_i r hr
+            simp only [Except.ok.injEq] at h; subst h
+            exact Chain.single (commit_booked ops law hrs elaw env st.1 st.2 v _ gc csId _ _ _ r
+              (getVehicle_ok _ _ _ hv) hcs (getGc_ok _ _ _ hgc).1
+              (law.load_max _ _ _ _ r.1 r.2.1 r.2.2 hr).1 hr)
+
+theorem chargeVehicles_chain (ops : Ops α B) (law : Law ops) (hrs : Int → α)
+    (elaw : EnergyLaw ops hrs) (env : Env α) (w w' : SWorld α B) (cmds : List (String × α))
+    (h : chargeVehicles ops env w = .ok (w', cmds)) : Chain ops hrs env w w' := by
+  unfold chargeVehicles at h
+  split at h
+  · cases h
+  · refine foldlM_chain ops hrs env (fun s => s.1) (cvGroup ops env) ?_ _ (w, []) (w', cmds) h
+    intro s s' grp hg
+    unfold cvGroup at hg
+    split at hg
+    · cases hg
+    · split at hg
+      · cases hg
+      · split at hg
+        · cases hg
+        · split at hg
+          · cases hg
+          · split at hg
+            · simp only [Except.ok.injEq] at hg; subst hg; exact Chain.refl _
+            · exact foldlM_chain ops hrs env (fun s => s.1) (cvVehicle ops env grp.1)
+                (fun a a' b hb => cvVehicle_chain ops law hrs elaw env grp.1 a a' b hb) _ s s' hg
+
+theorem acVehicle_chain (ops : Ops α B) (law : Law ops) (hrs : Int → α) (elaw : EnergyLaw ops hrs)
+    (env : Env α) (gid : String) (s s' : SWorld α B × List (String × α)) (v0 : VehicleS α B)
+    (h : acVehicle ops env gid s v0 = .ok s') : Chain ops hrs env s.1 s'.1 := by
+  unfold acVehicle at h
+  split at h
+  · simp only [Except.ok.injEq] at h; subst h; exact Chain.refl _
+  · rename_i v hv
+    have hvm : v ∈ s.1.vehicles := by
+      unfold SWorld.vehicle? at hv; exact List.mem_of_find?_eq_some hv
+    split at h
+    · simp only [Except.ok.injEq] at h; subst h; exact Chain.refl _
+    · rename_i csId hcs
+      split at h
+      · cases h
+      · split at h
+        · cases h
+        · split at h
+          · cases h
+          · rename_i gc hgc
+            split at h
+            · cases h
+            · split at h
+              · cases h
+              · split at h
+                · cases h
+                · rename_i r hr
+                  simp only [Except.ok.injEq] at h; subst h
+                  exact Chain.single (commit_booked ops law hrs elaw env s.1 s.2 v _ gc csId _ _ _ r
+                    hvm hcs (getGc_ok _ _ _ hgc).1 (law.load_max _ _ _ _ r.1 r.2.1 r.2.2 hr).1 hr)
+
+theorem afterCst_chain (ops : Ops α B) (law : Law ops) (hrs : Int → α) (elaw : EnergyLaw ops hrs)
+    (env : Env α) (w w' : SWorld α B) (st st' : CState α) (cmds cmds' : List (String × α))
+    (h : afterCst ops env w st cmds = .ok (w', st', cmds')) : Chain ops hrs env w w' := by
+  unfold afterCst at h
+  split at h
+  · cases h
+  · split at h
+    · cases h
+    · simp only at h
+      split at h
+      · simp only [Except.ok.injEq, Prod.mk.injEq] at h; obtain ⟨rfl, _⟩ := h; exact Chain.refl _
+      · split at h
+        · simp only [Except.ok.injEq, Prod.mk.injEq] at h; obtain ⟨rfl, _⟩ := h; exact Chain.refl _
+        · split at h
+          · cases h
+          · rename_i r hr
+            simp only [Except.ok.injEq, Prod.mk.injEq] at h
+            obtain ⟨rfl, _⟩ := h
+            exact foldlM_chain ops hrs env (fun s => s.1) (acVehicle ops env _)
+              (fun a a' b hb => acVehicle_chain ops law hrs elaw env _ a a' b hb) _ (w, cmds) r hr
+
+theorem excessVehicle_chain (ops : Ops α B) (law : Law ops) (hrs : Int → α)
+    (elaw : EnergyLaw ops hrs) (env : Env α) (dt : Int)
+    (st st' : SWorld α B × List (String × α) × List (String × α)) (kv : String × α)
+    (h : excessVehicle ops env dt st kv = .ok st') : Chain ops hrs env st.1 st'.1 := by
+  unfold excessVehicle at h
+  simp only [bind, Except.bind] at h
+  split at h
+  · cases h
+  · rename_i v hv
+    split at h
+    · simp only [Except.ok.injEq] at h; subst h; exact Chain.refl _
+    · rename_i csId hcs
+      split at h
+      · cases h
+      · split at h
+        · cases h
+        · rename_i gc hgc
+          split at h
+          · cases h
+          · split at h
+            · cases h
+            · split at h
+              · cases h
+              · rename_i r hr
+                simp only [Except.ok.injEq] at h; subst h
+                exact Chain.single (commit_booked ops law hrs elaw env st.1 st.2.2 v _ gc csId _ _ _ r
+                  (getVehicle_ok _ _ _ hv) hcs (getGc_ok _ _ _ hgc).1
+                  (law.load_target _ _ _ r.1 r.2.1 r.2.2 hr).1 hr)
+
+theorem csLoop_chain (ops : Ops α B) (law : Law ops) (hrs : Int → α) (elaw : EnergyLaw ops hrs)
+    (env : Env α) (fraction : α) (nVeh : Nat) (gid : String) (fuel i : Nat)
+    (q lo : List (String × α)) (extra rem : α) (w : SWorld α B) (cmds : List (String × α))
+    (r : SWorld α B × List (String × α))
+    (h : csLoop ops env fraction nVeh gid fuel i q lo extra rem w cmds = .ok r) :
+    Chain ops hrs env w r.1 := by
+  induction fuel generalizing i q lo extra rem w cmds with
+  | zero =>
+    cases q with
+    | nil => unfold csLoop at h; simp only [Except.ok.injEq] at h; subst h; exact Chain.refl _
+    | cons x xs => unfold csLoop at h; cases h
+  | succ f ih =>
+    cases q with
+    | nil => unfold csLoop at h; simp only [Except.ok.injEq] at h; subst h; exact Chain.refl _
+    | cons x xs =>
+      obtain ⟨vid, en⟩ := x
+      unfold csLoop at h
+      split at h
+      · cases h
+      · rename_i v hv
+        split at h
+        · exact ih _ _ _ _ _ _ _ h
+        · rename_i csId hcs
+          split at h
+          · cases h
+          · rename_i cs _
+            split at h
+            · cases h
+            · rename_i gc hgc
+              simp only at h
+              split at h
+              · cases h
+              · rename_i res hres
+                have hb := Chain.single (commit_booked ops law hrs elaw env w cmds v cs gc csId _ _ _ res
+                  (getVehicle_ok _ _ _ hv) hcs (getGc_ok _ _ _ hgc).1
+                  (law.load_target _ _ _ res.1 res.2.1 res.2.2 hres).1 hres)
+                split at h
+                · simp only [Except.ok.injEq] at h; subst h; exact hb
+                · split at h
+                  · simp only [Except.ok.injEq] at h; subst h; exact hb
+                  · split at h
+                    · exact Chain.trans hb (ih _ _ _ _ _ _ _ h)
+                    · exact Chain.trans hb (ih _ _ _ _ _ _ _ h)
+
+theorem duringCst_chain (ops : Ops α B) (law : Law ops) (hrs : Int → α) (elaw : EnergyLaw ops hrs)
+    (env : Env α) (w : SWorld α B) (st : CState α) (r : SWorld α B × CState α × List (String × α))
+    (h : duringCst ops env w st = .ok r) : Chain ops hrs env w r.1 := by
+  unfold duringCst at h
+  split at h
+  · cases h
+  · simp only at h
+    split at h
+    · cases h
+    · split at h
+      · cases h
+      · rename_i r1 hr1
+        simp only [Except.ok.injEq] at h; subst h
+        simp only
+        split at hr1
+        · unfold dcExcess at hr1
+          simp only at hr1
+          split at hr1
+          · cases hr1
+          · rename_i r2 hr2
+            simp only [Except.ok.injEq] at hr1; subst hr1
+            exact foldlM_chain ops hrs env (fun s => s.1) (excessVehicle ops env _)
+              (fun a a' b hb => excessVehicle_chain ops law hrs elaw env _ a a' b hb) _ _ r2 hr2
+        · unfold dcOnSchedule at hr1
+          simp only at hr1
+          split at hr1
+          · cases hr1
+          · split at hr1
+            · cases hr1
+            · split at hr1
+              · cases hr1
+              · split at hr1
+                · cases hr1
+                · split at hr1
+                  · cases hr1
+                  · rename_i r2 hr2
+                    simp only [Except.ok.injEq] at hr1; subst hr1
+                    exact csLoop_chain ops law hrs elaw env _ _ _ _ _ _ _ _ _ w [] r2 hr2
+
+theorem v2gApply_booked (ops : Ops α B) (law : Law ops) (hrs : Int → α) (elaw : EnergyLaw ops hrs)
+    (env : Env α) (chargeNow : Bool) (w : SWorld α B) (cmds : List (String × α)) (v : VehicleS α B)
+    (cs : StationS α) (gc : GcS α) (csId : String) (mdp : α) (dl : Option α) (total : α)
+    (r : SWorld α B × List (String × α))
+    (hv : v ∈ w.vehicles) (hc : v.cs = some csId) (hg : gc ∈ w.gcs)
+    (h : v2gApply ops env chargeNow w cmds v cs gc csId mdp dl total = .ok r) :
+    Booked1 ops hrs env w r.1 := by
+  unfold v2gApply at h
+  split at h
+  · split at h
+    · cases h
+    · rename_i res hres
+      simp only [Except.ok.injEq] at h; subst h
+      refine ⟨v, gc, csId, res.2, res.1, hv, hc, hg, rfl, rfl, (addLoad_currentLoad gc csId res.2).1, rfl,
+        Or.inl ?_⟩
+      split at hres
+      · simp only [Except.ok.injEq] at hres; subst hres
+        exact ⟨le_refl _, by simp⟩
+      · split at hres
+        · cases hres
+        · rename_i r2 hr2
+          simp only [Except.ok.injEq] at hres; subst hres
+          exact ⟨(law.load_max _ _ _ _ r2.1 r2.2.1 r2.2.2 hr2).1,
+            (elaw.load_energy _ _ _ _ _ r2.1 r2.2.1 r2.2.2 hr2).2.2⟩
+  · split at h
+    · cases h
+    · rename_i res hres
+      simp only [Except.ok.injEq] at h; subst h
+      refine ⟨v, gc, csId, -res.2, res.1, hv, hc, hg, rfl, rfl, (addLoad_currentLoad gc csId (-res.2)).1,
+        rfl, Or.inr ?_⟩
+      split at hres
+      · simp only [Except.ok.injEq] at hres; subst hres
+        exact ⟨by simp, by simp⟩
+      · split at hres
+        · cases hres
+        · rename_i r2 hr2
+          simp only [Except.ok.injEq] at hres; subst hres
+          have h0 := (law.unload_max _ _ _ _ r2.1 r2.2.1 r2.2.2 hr2).1
+          refine ⟨by simp only; linarith, ?_⟩
+          rw [neg_neg]
+          exact (elaw.unload_energy _ _ _ _ _ r2.1 r2.2.1 r2.2.2 hr2).2.2
+
+theorem v2gVehicle_chain (ops : Ops α B) (law : Law ops) (hrs : Int → α) (elaw : EnergyLaw ops hrs)
+    (env : Env α) (gid : String) (chargeNow : Bool) (chargeWindow : List Bool) (issues : List String)
+    (st st' : SWorld α B × List (String × α) × Option α) (vid : String)
+    (h : v2gVehicle ops env gid chargeNow chargeWindow issues st vid = .ok st') :
+    Chain ops hrs env st.1 st'.1 := by
+  unfold v2gVehicle at h
+  split at h
+  · simp only [Except.ok.injEq] at h; subst h; exact Chain.refl _
+  · split at h
+    · cases h
+    · rename_i v hv
+      split at h
+      · cases h
+      · rename_i csId hcs
+        split at h
+        · cases h
+        · rename_i cs _
+          split at h
+          · cases h
+          · simp only at h
+            split at h
+            · cases h
+            · rename_i gc hgc
+              split at h
+              · cases h
+              · split at h
+                · cases h
+                · simp only [Except.ok.injEq] at h; subst h; exact Chain.refl _
+                · split at h
+                  · cases h
+                  · split at h
+                    · cases h
+                    · rename_i r hr
+                      simp only [Except.ok.injEq] at h; subst h
+                      exact Chain.single (v2gApply_booked ops law hrs elaw env chargeNow st.1 st.2.1 v cs gc
+                        csId _ _ _ r (getVehicle_ok _ _ _ hv) hcs (getGc_ok _ _ _ hgc).1 hr)
+
+theorem v2gCst_chain (ops : Ops α B) (law : Law ops) (hrs : Int → α) (elaw : EnergyLaw ops hrs)
+    (env : Env α) (w : SWorld α B) (st : CState α) (cmds : List (String × α))
+    (r : SWorld α B × CState α × List (String × α))
+    (h : v2gCst ops env w st cmds = .ok r) : Chain ops hrs env w r.1 := by
+  unfold v2gCst at h
+  simp only [bind, Except.bind] at h
+  split at h
+  · cases h
+  · split at h
+    · cases h
+    · split at h
+      · cases h
+      · rename_i r2 hr2
+        simp only [Except.ok.injEq] at h; subst h
+        exact foldlM_chain ops hrs env (fun s => s.1) (v2gVehicle ops env _ _ _ _)
+          (fun a a' b hb => v2gVehicle_chain ops law hrs elaw env _ _ _ _ a a' b hb) _ (w, cmds, none) r2 hr2
+
+/-- **the collective `step` changes vehicles and connector loads only through a chain of booked
+battery calls, followed by the battery pass**: the evaluation at the first step of the core standing
+time, `sim_balanced_charging`, the V2G searches and every other look-ahead leave no trace -/
+theorem step_collective_chain (ops : Ops α B) (law : Law ops) (hrs : Int → α)
+    (elaw : EnergyLaw ops hrs) (env : Env α) (hc : env.collective = true)
+    (w w' : SWorld α B) (st st' : CState α) (cmds : List (String × α))
+    (h : step ops env w st = .ok (w', st', cmds)) :
+    ∃ wv, Chain ops hrs env (resetStations w) wv ∧ utilizeBatteries ops env wv = .ok w' := by
+  unfold step at h
+  simp only [hc, if_true, bind, Except.bind, pure, Except.pure] at h
+  split at h
+  · cases h
+  · rename_i r hr
+    have hch : Chain ops hrs env (resetStations w) r.1 := by
+      split at hr
+      · cases hr
+      · rename_i b _
+        cases b with
+        | true =>
+          simp only [if_true] at hr
+          split at hr
+          · cases hr
+          · rename_i st1 _
+            split at hr
+            · cases hr
+            · rename_i r2 hr2
+              have k := duringCst_chain ops law hrs elaw env _ st1 r2 hr2
+              split at hr
+              · exact Chain.trans k (v2gCst_chain ops law hrs elaw env r2.1 r2.2.1 r2.2.2 r hr)
+              · simp only [Except.ok.injEq] at hr; subst hr; exact k
+        | false =>
+          simp only [Bool.false_eq_true, if_false] at hr
+          split at hr
+          · cases hr
+          · rename_i r1 hr1
+            have k := chargeVehicles_chain ops law hrs elaw env _ r1.1 r1.2 (by rw [hr1])
+            split at hr
+            · obtain ⟨a, b, c⟩ := r
+              exact Chain.trans k (afterCst_chain ops law hrs elaw env r1.1 a st b r1.2 c hr)
+            · simp only [Except.ok.injEq] at hr; subst hr; exact k
+    split at h
+    · cases h
+    · rename_i w2 hw2
+      simp only [Except.ok.injEq, Prod.mk.injEq] at h
+      obtain ⟨rfl, _, _⟩ := h
+      exact ⟨r.1, hch, hw2⟩
+
+/-! ### stations in the V2G pass -/
+
+/-- every station carries a power within `± max_power` -/
+def StationAbs (w : SWorld α B) : Prop :=
+  ∀ s ∈ w.stations, -s.maxPower ≤ s.currentPower ∧ s.currentPower ≤ s.maxPower
+
+/-- invariant of the vehicle loop of the V2G pass: `rem` = ids still to be served; a station of a
+vehicle that is still to be served has not been discharged yet -/
+def VJ (G : String) (M : List (String × Option String)) (rem : List String) (w : SWorld α B) : Prop :=
+  Link w ∧ StationAbs w ∧ SingleGc G w ∧ w.vehicles.map strip2 = M ∧
+  (∀ m ∈ M, m.1 ∈ rem → ∀ c, m.2 = some c → ∀ s ∈ w.stations, s.id = c → 0 ≤ s.currentPower)
+
+theorem getVehicle_id (w : SWorld α B) (id : String) (v : VehicleS α B)
+    (h : getVehicle w id = .ok v) : v.id = id := by
+  unfold getVehicle at h
+  split at h
+  · rename_i v' hv
+    simp only [Except.ok.injEq] at h; subst h
+    unfold SWorld.vehicle? at hv
+    simpa using List.find?_some hv
+  · cases h
+
+theorem v2gTotal_le_station (ops : Ops α B) (env : Env α) (heps : 0 ≤ env.eps) (chargeNow : Bool)
+    (chargeWindow : List Bool) (cs : StationS α) (v : VehicleS α B) (mdp diff hn : α) (wc : Nat)
+    (dl : Option α) (total : α)
+    (h : v2gTotal ops env chargeNow chargeWindow cs v mdp diff hn wc dl = .ok total) :
+    total ≤ max cs.maxPower 0 := by
+  unfold v2gTotal at h
+  simp only at h
+  split at h
+  · cases h
+  · refine v2gPowerLoop_le ops env heps cs v chargeNow mdp _ dl _ v.bat (max cs.maxPower 0) env.fuel 0 _ 0
+      v.bat total (le_max_right _ _) ?_ h
+    rw [pymin_eq]
+    exact le_trans (min_le_left _ _) (le_max_left _ _)
+
+/-- under the link invariant the world the V2G pass leaves is a committed world with the signed power `x` -/
+theorem v2gApply_commit (ops : Ops α B) (law : Law ops) (env : Env α) (chargeNow : Bool)
+    (w : SWorld α B) (cmds : List (String × α)) (v : VehicleS α B) (cs : StationS α) (gc : GcS α)
+    (mdp : α) (dl : Option α) (total : α) (r : SWorld α B × List (String × α))
+    (hl : Link w) (hcs : cs ∈ w.stations) (hg : gc ∈ w.gcs) (hp : gc.id = cs.parent)
+    (h : v2gApply ops env chargeNow w cmds v cs gc cs.id mdp dl total = .ok r) :
+    ∃ x bat', r.1 = (commit w cmds v bat' cs gc cs.id x).1 ∧
+      ((0 ≤ x ∧ x ≤ max (clampV cs v total) 0) ∨ (x ≤ 0 ∧ -x ≤ max total 0)) := by
+  unfold v2gApply at h
+  split at h
+  · split at h
+    · cases h
+    · rename_i res hres
+      simp only [Except.ok.injEq] at h; subst h
+      have hval := (link_commit w cmds v res.1 cs gc hcs hg hp res.2 hl).2
+      refine ⟨res.2, res.1, ?_, Or.inl ?_⟩
+      · show ((w.setVehicle { v with bat := res.1 }).setGc (gc.addLoad cs.id res.2).1).setStation
+            { cs with currentPower := cs.currentPower + res.2 } =
+          ((w.setVehicle { v with bat := res.1 }).setGc (gc.addLoad cs.id res.2).1).setStation
+            { cs with currentPower := (gc.addLoad cs.id res.2).2 }
+        rw [hval]
+      · split at hres
+        · simp only [Except.ok.injEq] at hres; subst hres
+          exact ⟨le_refl _, le_max_right _ _⟩
+        · split at hres
+          · cases hres
+          · rename_i r2 hr2
+            simp only [Except.ok.injEq] at hres; subst hres
+            exact law.load_max _ _ _ _ r2.1 r2.2.1 r2.2.2 hr2
+  · split at h
+    · cases h
+    · rename_i res hres
+      simp only [Except.ok.injEq] at h; subst h
+      have hval := (link_commit w cmds v res.1 cs gc hcs hg hp (-res.2) hl).2
+      refine ⟨-res.2, res.1, ?_, Or.inr ?_⟩
+      · show ((w.setVehicle { v with bat := res.1 }).setGc (gc.addLoad cs.id (-res.2)).1).setStation
+            { cs with currentPower := cs.currentPower - res.2 } =
+          ((w.setVehicle { v with bat := res.1 }).setGc (gc.addLoad cs.id (-res.2)).1).setStation
+            { cs with currentPower := (gc.addLoad cs.id (-res.2)).2 }
+        rw [hval, sub_eq_add_neg]
+      · rw [neg_neg]
+        split at hres
+        · simp only [Except.ok.injEq] at hres; subst hres
+          exact ⟨by simp, le_max_right _ _⟩
+        · split at hres
+          · cases hres
+          · rename_i r2 hr2
+            simp only [Except.ok.injEq] at hres; subst hres
+            obtain ⟨h0, h1⟩ := law.unload_max _ _ _ _ r2.1 r2.2.1 r2.2.2 hr2
+            refine ⟨by simp only; linarith, le_trans h1 (max_le ?_ (le_max_right _ _))⟩
+            rw [pymin_eq]
+            exact le_trans (min_le_left _ _) (clampV_le cs v total).2
+
+/-- **one vehicle of the V2G pass keeps every station within `± max_power`**, provided its station
+has not been discharged before in this pass (it is still in the "to be served" part) -/
+theorem v2gVehicle_vj (ops : Ops α B) (law : Law ops) (env : Env α) (heps : 0 ≤ env.eps)
+    (G : String) (M : List (String × Option String)) (gid : String) (chargeNow : Bool)
+    (chargeWindow : List Bool) (issues : List String) (vid0 : String) (rest : List String)
+    (st st' : SWorld α B × List (String × α) × Option α)
+    (hMid : (M.map (·.1)).Nodup)
+    (hMd : ∀ m1 ∈ M, ∀ m2 ∈ M, ∀ c, m1.2 = some c → m2.2 = some c → m1.1 = m2.1)
+    (hnot : vid0 ∉ rest) (hJ : VJ G M (vid0 :: rest) st.1)
+    (h : v2gVehicle ops env gid chargeNow chargeWindow issues st vid0 = .ok st') :
+    VJ G M rest st'.1 := by
+  obtain ⟨hl, hab, ⟨hsg, hss⟩, hM, hpos⟩ := hJ
+  have weaken : VJ G M rest st.1 :=
+    ⟨hl, hab, ⟨hsg, hss⟩, hM, fun m hm hr => hpos m hm (List.mem_cons_of_mem _ hr)⟩
+  unfold v2gVehicle at h
+  split at h
+  · simp only [Except.ok.injEq] at h; subst h; exact weaken
+  · split at h
+    · cases h
+    · rename_i v hv
+      have hvm := getVehicle_ok _ _ _ hv
+      have hvid := getVehicle_id _ _ _ hv
+      split at h
+      · cases h
+      · rename_i csId hcsid
+        split at h
+        · cases h
+        · rename_i cs hcs
+          obtain ⟨hcsm, hcsidd⟩ := getStation_ok _ _ _ hcs
+          split at h
+          · cases h
+          · simp only at h
+            split at h
+            · cases h
+            · rename_i gc hgc
+              obtain ⟨hgm, _⟩ := getGc_ok _ _ _ hgc
+              split at h
+              · cases h
+              · rename_i dl _
+                split at h
+                · cases h
+                · simp only [Except.ok.injEq] at h; subst h; exact weaken
+                · split at h
+                  · cases h
+                  · rename_i total htot
+                    split at h
+                    · cases h
+                    · rename_i r hr
+                      simp only [Except.ok.injEq] at h; subst h
+                      subst hcsidd
+                      have hp : gc.id = cs.parent := by rw [hsg gc hgm, hss cs hcsm]
+                      obtain ⟨x, bat', hw, hx⟩ := v2gApply_commit ops law env chargeNow st.1 st.2.1 v cs gc _ dl
+                        total r hl hcsm hgm hp hr
+                      have hm0 : strip2 v ∈ M := by rw [← hM]; exact List.mem_map_of_mem hvm
+                      have hcur0 : 0 ≤ cs.currentPower :=
+                        hpos (strip2 v) hm0 (by simp [strip2, hvid]) cs.id hcsid cs hcsm rfl
+                      obtain ⟨hlo, hhi⟩ := hab cs hcsm
+                      have hmx0 : 0 ≤ cs.maxPower := by linarith
+                      have htl := v2gTotal_le_station ops env heps chargeNow chargeWindow cs v _ _ _ _ dl total htot
+                      rw [max_eq_left hmx0] at htl
+                      have hbnd : -cs.maxPower ≤ cs.currentPower + x ∧ cs.currentPower + x ≤ cs.maxPower := by
+                        rcases hx with ⟨h0, h1⟩ | ⟨h0, h1⟩
+                        · exact ⟨by linarith, clampV_station cs v total x hhi h1⟩
+                        · have : -x ≤ cs.maxPower := le_trans h1 (max_le htl hmx0)
+                          exact ⟨by linarith, by linarith⟩
+                      obtain ⟨hl', hval⟩ := link_commit st.1 st.2.1 v bat' cs gc hcsm hgm hp x hl
+                      have hids : (st.1.vehicles.map (·.id)).Nodup := by
+                        have : st.1.vehicles.map (·.id) = M.map (·.1) := by
+                          rw [← hM, List.map_map]; rfl
+                        rw [this]; exact hMid
+                      show VJ G M rest r.1
+                      rw [hw]
+                      refine ⟨hl', ?_, ⟨?_, ?_⟩, ?_, ?_⟩
+                      · intro s hs
+                        rw [commit_stations] at hs
+                        rcases mem_setStation' _ _ s hs with rfl | ⟨hs', _⟩
+                        · simp only [hval]; exact hbnd
+                        · exact hab s hs'
+                      · intro g hgm'
+                        rw [commit_gcs] at hgm'
+                        rcases mem_setGc _ _ g hgm' with rfl | ⟨hm', _⟩
+                        · rw [(addLoad_currentLoad gc cs.id x).2.2.1]; exact hsg gc hgm
+                        · exact hsg g hm'
+                      · intro s hs
+                        rw [commit_stations] at hs
+                        rcases mem_setStation' _ _ s hs with rfl | ⟨hs', _⟩
+                        · exact hss cs hcsm
+                        · exact hss s hs'
+                      · show (st.1.setVehicle { v with bat := bat' }).vehicles.map strip2 = M
+                        rw [strip2_setVehicle st.1 v bat' hids hvm, hM]
+                      · intro m hm hr' c hc s hs hsc
+                        rw [commit_stations] at hs
+                        rcases mem_setStation' _ _ s hs with rfl | ⟨hs', _⟩
+                        · exfalso
+                          have : m.1 = (strip2 v).1 := hMd m hm (strip2 v) hm0 cs.id (by rw [hc, ← hsc]) hcsid
+                          apply hnot
+                          rw [← hvid]
+                          simpa [strip2, this] using hr'
+                        · exact hpos m hm (List.mem_cons_of_mem _ hr') c hc s hs' hsc
+
+theorem v2gFold_vj (ops : Ops α B) (law : Law ops) (env : Env α) (heps : 0 ≤ env.eps)
+    (G : String) (M : List (String × Option String)) (gid : String) (chargeNow : Bool)
+    (chargeWindow : List Bool) (issues : List String) (vids : List String)
+    (st st' : SWorld α B × List (String × α) × Option α)
+    (hMid : (M.map (·.1)).Nodup)
+    (hMd : ∀ m1 ∈ M, ∀ m2 ∈ M, ∀ c, m1.2 = some c → m2.2 = some c → m1.1 = m2.1)
+    (hnd : vids.Nodup) (hJ : VJ G M vids st.1)
+    (h : vids.foldlM (v2gVehicle ops env gid chargeNow chargeWindow issues) st = .ok st') :
+    StationAbs st'.1 := by
+  induction vids generalizing st with
+  | nil =>
+    simp only [List.foldlM_nil, pure, Except.pure, Except.ok.injEq] at h
+    subst h; exact hJ.2.1
+  | cons vid0 rest ih =>
+    simp only [List.foldlM_cons, bind, Except.bind] at h
+    split at h
+    · cases h
+    · rename_i st1 h1
+      simp only [List.nodup_cons] at hnd
+      exact ih st1 hnd.2 (v2gVehicle_vj ops law env heps G M gid chargeNow chargeWindow issues vid0 rest st
+        st1 hMid hMd hnd.1 hJ h1) h
+
+theorem stationAbs_of_ok (w : SWorld α B) (h : StationOK w) : StationAbs w := by
+  intro s hs
+  obtain ⟨h0, h1⟩ := h s hs
+  exact ⟨by linarith, h1⟩
+
+theorem v2gCst_station (ops : Ops α B) (law : Law ops) (env : Env α) (heps : 0 ≤ env.eps)
+    (G : String) (M : List (String × Option String)) (w : SWorld α B) (st : CState α)
+    (cmds : List (String × α)) (r : SWorld α B × CState α × List (String × α))
+    (hl : Link w) (hok : StationOK w) (hsg : SingleGc G w) (hM : w.vehicles.map strip2 = M)
+    (hMid : (M.map (·.1)).Nodup)
+    (hMd : ∀ m1 ∈ M, ∀ m2 ∈ M, ∀ c, m1.2 = some c → m2.2 = some c → m1.1 = m2.1)
+    (h : v2gCst ops env w st cmds = .ok r) : StationAbs r.1 := by
+  unfold v2gCst at h
+  simp only [bind, Except.bind] at h
+  split at h
+  · cases h
+  · split at h
+    · cases h
+    · split at h
+      · cases h
+      · rename_i r2 hr2
+        simp only [Except.ok.injEq] at h; subst h
+        have hids : (w.vehicles.map (·.id)).Nodup := by
+          have : w.vehicles.map (·.id) = M.map (·.1) := by rw [← hM, List.map_map]; rfl
+          rw [this]; exact hMid
+        have hnd : (((w.vehicles.filter (fun v => v.cs.isSome && v.v2g)).map (·.id)).mergeSort
+            (fun a b => decide (a ≤ b))).Nodup := by
+          rw [(List.mergeSort_perm _ _).nodup_iff]
+          exact List.Nodup.sublist (List.Sublist.map _ List.filter_sublist) hids
+        refine v2gFold_vj ops law env heps G M _ _ _ _ _ (w, cmds, none) r2 hMid hMd hnd ?_ hr2
+        exact ⟨hl, stationAbs_of_ok w hok, hsg, hM, fun m _ _ c _ s hs _ => (hok s hs).1⟩
+
+/-- **collective sub-strategy, V2G-capable vehicles allowed: the whole step keeps every station within
+`± max_power`** when vehicle ids are distinct and no two connected vehicles share a station -/
+theorem step_collective_station_v2g (M : List (String × Option String)) (ops : Ops α B)
+    (law : Law ops) (env : Env α) (heps : 0 ≤ env.eps) (hc : env.collective = true) (G : String)
+    (w w' : SWorld α B) (st st' : CState α) (cmds : List (String × α))
+    (hS : SInv false M G (resetStations w)) (hMid : (M.map (·.1)).Nodup)
+    (hMd : ∀ m1 ∈ M, ∀ m2 ∈ M, ∀ c, m1.2 = some c → m2.2 = some c → m1.1 = m2.1)
+    (h : step ops env w st = .ok (w', st', cmds)) : StationAbs w' := by
+  unfold step at h
+  simp only [hc, if_true, bind, Except.bind, pure, Except.pure] at h
+  split at h
+  · cases h
+  · rename_i r hr
+    have hSr : StationAbs r.1 := by
+      split at hr
+      · cases hr
+      · rename_i b _
+        cases b with
+        | true =>
+          simp only [if_true] at hr
+          split at hr
+          · cases hr
+          · rename_i st1 _
+            split at hr
+            · cases hr
+            · rename_i r2 hr2
+              have k := duringCst_sinv false M ops law env heps G _ st1 r2 hS hr2
+              split at hr
+              · exact v2gCst_station ops law env heps G M r2.1 r2.2.1 r2.2.2 r k.1 k.2.1 k.2.2.1
+                  (k.2.2.2.2 hMid) hMid hMd hr
+              · simp only [Except.ok.injEq] at hr; subst hr
+                exact stationAbs_of_ok _ k.2.1
+        | false =>
+          simp only [Bool.false_eq_true, if_false] at hr
+          split at hr
+          · cases hr
+          · rename_i r1 hr1
+            have k := chargeVehicles_sinv false M ops law env G _ r1.1 r1.2 hS (by rw [hr1])
+            split at hr
+            · obtain ⟨a, b, c⟩ := r
+              exact stationAbs_of_ok _ (afterCst_sinv false M ops law env G r1.1 a st b r1.2 c k hr).2.1
+            · simp only [Except.ok.injEq] at hr; subst hr
+              exact stationAbs_of_ok _ k.2.1
+    split at h
+    · cases h
+    · rename_i w2 hw2
+      simp only [Except.ok.injEq, Prod.mk.injEq] at h
+      obtain ⟨rfl, _, _⟩ := h
+      intro s hs
+      rw [utilizeBatteries_stations ops env r.1 w2 hw2] at hs
+      exact hSr s hs
 
 /-! ### a small exact battery for the non-vacuity examples -/
 
@@ -2323,6 +3244,14 @@ def exEnvC (target : ℚ) : Env ℚ :=
 /-- the collective example world with a V2G-capable vehicle (SoC 0.9 > desired 0.8) -/
 def exWorldV2G : SWorld ℚ (ℚ × ℚ) :=
   { exWorldC with vehicles := [{ exVehicle with v2g := true, bat := (9/10, 40) }] }
+
+/-- feed-in example (mechanism C): fixed load 6 kW and 14 kW generation (net −8 kW) on the 10 kW
+connector, the V2G-capable vehicle of `exWorldV2G` -/
+def exWorldFeed : SWorld ℚ (ℚ × ℚ) :=
+  { exWorldV2G with gcs := [⟨"GC", 10, none, [("load", 6), ("pv", -14)]⟩] }
+
+/-- attributes of a single discharge window (the evaluation forecast target − load < 0) -/
+def exStateFeed : CState ℚ := ⟨true, false, [-1], [false], 0, [("v1", 0)], [("v1", 0)], 0⟩
 
 /-- attributes as `evaluate_core_standing_time_ahead` leaves them when the schedule offers nothing in
 the first hour and 5 kW in the second, and the vehicle is expected to fall short by 0.3 SoC -/
